@@ -34,11 +34,7 @@ def _ref(obj, lib):
     if obj is None:
         return None
     oid = getattr(obj, 'id', None)
-    same = False
-    try:
-        same = lib is not None and oid is not None and lib.get(oid) is obj
-    except Exception:
-        same = False
+    same = lib is not None and any(x is obj for x in list.__iter__(lib))
     return [oid, bool(same)]
 
 
@@ -171,8 +167,15 @@ def snap_node(n, doc, depth=0):
     if isinstance(n, scene.NodeNode):
         return dict(kind='NodeNode', node=_ref(n.node, doc.nodes))
     if isinstance(n, scene.Node):
-        return dict(kind='Node', id=n.id, name=n.name, transforms=[snap_transform(t) for t in n.transforms],
-                    matrix=numpy.asarray(n.matrix, dtype=numpy.float64).reshape(-1).tolist(),
+        if DERIVE_MATRIX:
+            # the matrix the transform list implies (Node.matrix itself is only refreshed by save())
+            m = numpy.identity(4, dtype=numpy.float32)
+            for t in n.transforms:
+                m = numpy.dot(m, t.matrix)
+        else:
+            m = n.matrix
+        return dict(kind='Node', id=n.id, name=(n.id if n.name is None else n.name), transforms=[snap_transform(t) for t in n.transforms],
+                    matrix=numpy.asarray(m, dtype=numpy.float64).reshape(-1).tolist(),
                     children=[snap_node(c, doc, depth + 1) for c in n.children])
     if isinstance(n, scene.GeometryNode):
         return dict(kind=kind, geometry=_ref(n.geometry, doc.geometries), materials=[snap_matnode(m, doc) for m in n.materials])
@@ -204,7 +207,12 @@ def snap_animation(a):
     return dict(id=a.id, name=a.name, sources=sorted(k for k in a.sourceById), children=[snap_animation(c) for c in a.children])
 
 
-def snapshot(doc, norm7=False, errors=True):
+DERIVE_MATRIX = False
+
+
+def snapshot(doc, norm7=False, errors=True, derive_matrix=False):
+    global DERIVE_MATRIX
+    DERIVE_MATRIX = derive_matrix
     out = dict(
         asset=snap_asset(doc.assetInfo),
         images=[dict(id=i.id, path=i.path) for i in doc.images],
